@@ -3,18 +3,23 @@
 (* "every request the SDK's own client produces for arguments valid under the *)
 (* tool's schema satisfies the server's checks".                              *)
 (*                                                                            *)
-(*  Cases        tool schema shape (annotation depth, primitive type, header  *)
-(*               name class, a second annotated sibling) x argument value     *)
+(*  Cases        tool schema shape (annotation depth 1..8, primitive type,    *)
+(*               header name class, 0..2 further annotated properties in the  *)
+(*               same object, all with different values) x argument value     *)
 (*               class                                                        *)
 (*  ClientHdr    mcp.generateParamHeaders / encodeHeaderValue, transcribed    *)
 (*  OnWire       what an HTTP/1.1 hop does to a field value (Go net/http)     *)
 (*  ServerAccepts mcp.validateParamHeaders / decodeHeaderValue /              *)
 (*               primitiveEqual, transcribed over the same classes            *)
+(*  BoundTo      mcp.collectParamHeaderAnnotations: which argument each       *)
+(*               annotation's header is bound to                              *)
 (*  Holds        Agreement: schema-valid, in-range arguments are accepted and *)
-(*               reach the tool handler unaltered                             *)
+(*               reach the tool handler unaltered, and every Mcp-Param-*      *)
+(*               header the client sends carries its own parameter's value    *)
 EXTENDS Integers, Sequences, FiniteSets, TLC
 
-Depths == 1..3
+Depths == 1..8
+NSibs == 0..2
 Types == {"string", "integer", "boolean"}
 HNames == {"plain", "lower", "special"}
 \* value classes per type ("absent": the optional property is not sent; "null": JSON null)
@@ -24,8 +29,8 @@ IntVals == {"zero", "small", "neg", "maxsafe", "minsafe", "nearsafe", "beyond", 
 BoolVals == {"true", "false", "absent", "null"}
 ValsOf(ty) == CASE ty = "string" -> StringVals [] ty = "integer" -> IntVals [] ty = "boolean" -> BoolVals
 
-Cases == {[depth |-> d, ty |-> t, val |-> v, hname |-> h, sib |-> s] :
-            d \in Depths, t \in Types, v \in StringVals \cup IntVals \cup BoolVals, h \in HNames, s \in BOOLEAN}
+Cases == {[depth |-> d, ty |-> t, val |-> v, hname |-> h, nsib |-> s] :
+            d \in Depths, t \in Types, v \in StringVals \cup IntVals \cup BoolVals, h \in HNames, s \in NSibs}
 CaseSet == {c \in Cases : c.val \in ValsOf(c.ty)}
 
 \* what the property quantifies over: schema-valid values, integers within +-(2^53-1)
@@ -71,14 +76,29 @@ ServerAcceptsWire(c, w) ==
   ELSE ~SentinelLike(c)                                \* a raw sentinel would be base64-decoded into something else
 ServerAccepts(c, h) == ServerAcceptsWire(c, OnWire(c, h))
 
+\* Bindings: the annotated parameters of the tool are numbered 0 (the one the case varies) and 1..nsib (its
+\* siblings in the same object, each with a value different from all others).  collectParamHeaderAnnotations
+\* gives every annotation a path of its own (a fresh copy of the prefix plus the property name), whatever the
+\* nesting depth: the header of parameter i is bound to the argument of parameter i, on the client
+\* (generateParamHeaders) and on the server (validateParamHeaders) alike.
+Params(c) == 0..c.nsib
+BoundTo(c, i) == i
+\* every header carries the value of its own parameter
+OwnValues(c) == \A i \in Params(c) : BoundTo(c, i) = i
+\* the siblings' values are plain in-range primitives: each is accepted iff its header is bound to itself
+SiblingsAccepted(c) == \A i \in Params(c) \ {0} : BoundTo(c, i) = i
+
 \* The code-shaped outcome of a real client call
 Expected(c) == LET h == ClientHdr(c)
-                   ok == ServerAccepts(c, h)
-               IN [accepted |-> ok, same |-> ok, code |-> IF ok THEN 0 ELSE -32020, hdr |-> h]
+                   ok == ServerAccepts(c, h) /\ BoundTo(c, 0) = 0 /\ SiblingsAccepted(c)
+               IN [accepted |-> ok, same |-> ok, code |-> IF ok THEN 0 ELSE -32020, hdr |-> h,
+                   own |-> BoundTo(c, 0) = 0, sibok |-> \A i \in Params(c) \ {0} : BoundTo(c, i) = i]
 
 -----------------------------------------------------------------------------
 \* The property
-Holds(c, o) == InScope(c) => (o.accepted /\ o.same)
+\* (sibling values are always in scope, so their clause is unconditional)
+Holds(c, o) == /\ InScope(c) => (o.accepted /\ o.same /\ o.own)
+               /\ o.sibok
 
 \* design facts TLC checks on the transcription
 \* (1) encoding is always safe: whatever the class, a base64 header of a primitive is accepted
